@@ -178,6 +178,23 @@ func sweepRecheckRule(c *Ctx, ruleID string) {
 				return
 			}
 		}
+		// a key that fails the re-check is skipped, the rest of its bucket is still processed: from the
+		// re-check the only way on is back to the range's next (the bucket was already taken out of the index,
+		// so keys behind a `break` would never be looked at again)
+		if hdr := loopHeaderOf(expCall.Block()); hdr != nil {
+			body := loopBodyOf(hdr)
+			for b := range body {
+				if b == hdr || b == next.Block() {
+					continue
+				}
+				for _, s2 := range b.Succs {
+					if !body[s2] && expCall.Block().Dominates(b) {
+						L.Fail(ruleID, "expirationMap.cleanup", "after the re-check of one key the loop over its bucket can be left (block "+fmt.Sprint(b.Index)+" → "+fmt.Sprint(s2.Index)+"): the remaining keys of that bucket are never swept", instrPos(b.Instrs[len(b.Instrs)-1]))
+						return
+					}
+				}
+			}
+		}
 		// the fetch happens after the bucket grab: in the per-key loop, i.e. dominated by next
 		L.Check(instrDominates(next, expCall), ruleID, "expirationMap.cleanup", "policy.Del / store.Del / report only when the store's current expiration is non-zero and has passed", "the expiration is fetched before the per-key loop", expCall.Pos())
 	})
